@@ -116,6 +116,12 @@ CHECKS = {
         text='For every reader and every tree shape the document is produced from symbolic cardinalities and read by the real reader code; the result must be a proper tree (parents, owners, non-empty relations, attribute owners) with constraints in the consumable AST form. '
              'Every depth<=2 constraint tree goes through every reader natively. Bounded.',
         note='Trusted: CrossHair + patches, z3, the invariants in fmverif/props/c02.py, stubs of the file parsers as in the round-trip checks. N<=4/5.'),
+    'C12': dict(
+        category='model_checking', design_ref='6 C12',
+        technique='CrossHair symbolic execution (z3) of all eight writers on symbolic cardinalities / names with (a) snapshot purity and repeatability, (b) a sink in place of open() to compare returned and written content and the encoding, (c) writer modules re-loaded with sets as NDSet under a symbolic iteration permutation',
+        text='Purity and repeatability for all cardinalities; returned value == written content and explicit UTF-8 for symbolic (also non-ASCII) names; output equal under every permutation code of every set iteration (hash-seed independence as a solver variable). '
+             'Fresh processes under varied PYTHONHASHSEED / locale / default encoding are concrete runs counted apart. Bounded.',
+        note='Trusted: CrossHair + patches, z3, the NDSet rewrite and the open() sink. N<=4/5. Real locales and process start-up are exercised concretely only.'),
 }
 
 NOT_YET = {}
